@@ -407,7 +407,7 @@ def evaluate(case):
         pairs = [(a, b) for a, b in itertools.combinations(red, 2) if move_class(a) != move_class(b)]
         c, n = case['chunk']
         movesets = [()] + pairs[c::n]
-    seen = set()
+    seen = {}
     base_digest = None
     for ms in movesets:
         try:
@@ -421,11 +421,14 @@ def evaluate(case):
             if ms and dg != base_digest: nontriv += 1
         for orc, det in fails:
             kinds = '+'.join(sorted(m[0] + ('-' + m[1] if m[0] == 'bogus' else '') for m in ms)) or 'default'
-            if (orc, kinds) in seen: continue       # one per oracle and move-kind combination
-            seen.add((orc, kinds))
             mk = [movekey(tab, m) for m in ms]
-            viols.append({'oracle': orc, 'key': '{}:{}:{}'.format(label, kinds, ';'.join(mk)), 'detail': det,
-                          'case': {'key': case['key'] + ':replay', 'kind': 'vm', 'net': name, 'N': N, 'part': 'replay', 'moves': mk}})
+            v = {'oracle': orc, 'key': '{}:{}:{}'.format(label, kinds, ';'.join(mk)), 'detail': det,
+                 'case': {'key': case['key'] + ':replay', 'kind': 'vm', 'net': name, 'N': N, 'part': 'replay', 'moves': mk}}
+            # one violation per oracle and case; which one must not depend on the hash seed (class and member order
+            # do): fewest moves first, then the smallest key
+            rank = (len(ms), v['key'])
+            if orc not in seen or rank < seen[orc][0]: seen[orc] = (rank, v)
+    viols += [v for r, v in seen.values()]
     return {'states': nstates, 'transitions': ntrans, 'execs': nstates, 'nontrivial': nontriv, 'outcomes': sorted(outcomes),
             'violations': viols,
             'sample': {'case': case['key'], 'classes': len(tab), 'dictionaries': len(movesets),
